@@ -21,6 +21,24 @@ const (
 // compilerType: the struct type of the root package that has a field of type
 // hctx.Context and a field of type *ast.Program (the evaluator).
 func (w *World) compilerType() *types.Named {
+	w.memoMu.Lock()
+	if w.memo == nil {
+		w.memo = map[string]interface{}{}
+	}
+	k := "compilerType"
+	if v, ok := w.memo[k]; ok {
+		w.memoMu.Unlock()
+		return v.(*types.Named)
+	}
+	w.memoMu.Unlock()
+	v := w.compilerTypeUncached()
+	w.memoMu.Lock()
+	w.memo[k] = v
+	w.memoMu.Unlock()
+	return v
+}
+
+func (w *World) compilerTypeUncached() *types.Named {
 	p := w.Pkgs[""]
 	for _, name := range p.Types.Scope().Names() {
 		tn, ok := p.Types.Scope().Lookup(name).(*types.TypeName)
@@ -52,6 +70,24 @@ func (w *World) compilerType() *types.Named {
 // compilerField returns the evaluator's field of the given role:
 // "ctx" (type hctx.Context), "curStmt" (type ast.Statement).
 func (w *World) compilerField(role string) *types.Var {
+	w.memoMu.Lock()
+	if w.memo == nil {
+		w.memo = map[string]interface{}{}
+	}
+	k := "compilerField/"+role
+	if v, ok := w.memo[k]; ok {
+		w.memoMu.Unlock()
+		return v.(*types.Var)
+	}
+	w.memoMu.Unlock()
+	v := w.compilerFieldUncached(role)
+	w.memoMu.Lock()
+	w.memo[k] = v
+	w.memoMu.Unlock()
+	return v
+}
+
+func (w *World) compilerFieldUncached(role string) *types.Var {
 	ct := w.compilerType()
 	if ct == nil {
 		return nil
@@ -92,6 +128,24 @@ func isMethodOf(f *FuncInfo, named *types.Named) bool {
 
 // compilerMethods returns all methods of the evaluator type.
 func (w *World) compilerMethods() []*FuncInfo {
+	w.memoMu.Lock()
+	if w.memo == nil {
+		w.memo = map[string]interface{}{}
+	}
+	k := "compilerMethods"
+	if v, ok := w.memo[k]; ok {
+		w.memoMu.Unlock()
+		return v.([]*FuncInfo)
+	}
+	w.memoMu.Unlock()
+	v := w.compilerMethodsUncached()
+	w.memoMu.Lock()
+	w.memo[k] = v
+	w.memoMu.Unlock()
+	return v
+}
+
+func (w *World) compilerMethodsUncached() []*FuncInfo {
 	ct := w.compilerType()
 	var out []*FuncInfo
 	for _, f := range w.Funcs("") {
@@ -106,6 +160,24 @@ func (w *World) compilerMethods() []*FuncInfo {
 // *ast.<node> and that returns (interface{}, error). If several qualify
 // (e.g. if + else-if share *ast.IfExpression) all are returned in source order.
 func (w *World) evalMethods(node string) []*FuncInfo {
+	w.memoMu.Lock()
+	if w.memo == nil {
+		w.memo = map[string]interface{}{}
+	}
+	k := "evalMethods/"+node
+	if v, ok := w.memo[k]; ok {
+		w.memoMu.Unlock()
+		return v.([]*FuncInfo)
+	}
+	w.memoMu.Unlock()
+	v := w.evalMethodsUncached(node)
+	w.memoMu.Lock()
+	w.memo[k] = v
+	w.memoMu.Unlock()
+	return v
+}
+
+func (w *World) evalMethodsUncached(node string) []*FuncInfo {
 	var out []*FuncInfo
 	for _, f := range w.compilerMethods() {
 		sig := f.Obj.Type().(*types.Signature)
@@ -143,6 +215,24 @@ func (w *World) evalMethod(node string) *FuncInfo {
 // exprEvaluator: the central dispatch -- the evaluator method taking an
 // ast.Expression that type-switches over it into the per-node evaluators.
 func (w *World) exprEvaluator() *FuncInfo {
+	w.memoMu.Lock()
+	if w.memo == nil {
+		w.memo = map[string]interface{}{}
+	}
+	k := "exprEvaluator"
+	if v, ok := w.memo[k]; ok {
+		w.memoMu.Unlock()
+		return v.(*FuncInfo)
+	}
+	w.memoMu.Unlock()
+	v := w.exprEvaluatorUncached()
+	w.memoMu.Lock()
+	w.memo[k] = v
+	w.memoMu.Unlock()
+	return v
+}
+
+func (w *World) exprEvaluatorUncached() *FuncInfo {
 	var best *FuncInfo
 	bestN := 0
 	for _, f := range w.evalMethods("Expression") {
@@ -185,6 +275,24 @@ func (w *World) exprEvaluator() *FuncInfo {
 // identifier as nil"). The flag tells whether the wrapper contains the typed
 // unknown-identifier tolerance.
 func (w *World) operandWrappers() map[*types.Func]bool {
+	w.memoMu.Lock()
+	if w.memo == nil {
+		w.memo = map[string]interface{}{}
+	}
+	k := "operandWrappers"
+	if v, ok := w.memo[k]; ok {
+		w.memoMu.Unlock()
+		return v.(map[*types.Func]bool)
+	}
+	w.memoMu.Unlock()
+	v := w.operandWrappersUncached()
+	w.memoMu.Lock()
+	w.memo[k] = v
+	w.memoMu.Unlock()
+	return v
+}
+
+func (w *World) operandWrappersUncached() map[*types.Func]bool {
 	out := map[*types.Func]bool{}
 	ev := w.exprEvaluator()
 	if ev == nil {
@@ -274,6 +382,24 @@ func unknownToleranceIf(info *types.Info, ifs *ast.IfStmt) types.Object {
 
 // sinkMethod: the evaluator method with a *strings.Builder parameter.
 func (w *World) sinkMethod() *FuncInfo {
+	w.memoMu.Lock()
+	if w.memo == nil {
+		w.memo = map[string]interface{}{}
+	}
+	k := "sinkMethod"
+	if v, ok := w.memo[k]; ok {
+		w.memoMu.Unlock()
+		return v.(*FuncInfo)
+	}
+	w.memoMu.Unlock()
+	v := w.sinkMethodUncached()
+	w.memoMu.Lock()
+	w.memo[k] = v
+	w.memoMu.Unlock()
+	return v
+}
+
+func (w *World) sinkMethodUncached() *FuncInfo {
 	for _, f := range w.compilerMethods() {
 		sig := f.Obj.Type().(*types.Signature)
 		for i := 0; i < sig.Params().Len(); i++ {
@@ -287,6 +413,24 @@ func (w *World) sinkMethod() *FuncInfo {
 
 // truthyMethod: the evaluator method func(interface{}) bool.
 func (w *World) truthyMethod() *FuncInfo {
+	w.memoMu.Lock()
+	if w.memo == nil {
+		w.memo = map[string]interface{}{}
+	}
+	k := "truthyMethod"
+	if v, ok := w.memo[k]; ok {
+		w.memoMu.Unlock()
+		return v.(*FuncInfo)
+	}
+	w.memoMu.Unlock()
+	v := w.truthyMethodUncached()
+	w.memoMu.Lock()
+	w.memo[k] = v
+	w.memoMu.Unlock()
+	return v
+}
+
+func (w *World) truthyMethodUncached() *FuncInfo {
 	for _, f := range w.compilerMethods() {
 		sig := f.Obj.Type().(*types.Signature)
 		if sig.Params().Len() == 1 && sig.Results().Len() == 1 {
@@ -302,6 +446,24 @@ func (w *World) truthyMethod() *FuncInfo {
 
 // topLevelEval: the evaluator method with no parameters returning (string, error).
 func (w *World) topLevelEval() *FuncInfo {
+	w.memoMu.Lock()
+	if w.memo == nil {
+		w.memo = map[string]interface{}{}
+	}
+	k := "topLevelEval"
+	if v, ok := w.memo[k]; ok {
+		w.memoMu.Unlock()
+		return v.(*FuncInfo)
+	}
+	w.memoMu.Unlock()
+	v := w.topLevelEvalUncached()
+	w.memoMu.Lock()
+	w.memo[k] = v
+	w.memoMu.Unlock()
+	return v
+}
+
+func (w *World) topLevelEvalUncached() *FuncInfo {
 	for _, f := range w.compilerMethods() {
 		sig := f.Obj.Type().(*types.Signature)
 		if sig.Params().Len() == 0 && sig.Results().Len() == 2 {
